@@ -224,6 +224,10 @@ def _ctx_table():
     c['pathpfx'] = lambda x: setup(_def('path', 'Z', {'rel': None, 'name': S(R(x), '/n')}), _show('Z'))
     c['pathpfx-alone'] = lambda x: setup(_def('path', 'Z', {'rel': None, 'name': S(R(x))}), _show('Z'))
     c['pathpfx-soft'] = lambda x: setup(_def('path', 'Z', {'rel': None, 'name': S(R(x), '/n m', q='s')}), _show('Z'))
+    # a reference at the start of a FILE-NAME that is NOT followed by "/": the symbol is one component of the file name
+    # like any other (a string), it is not "a reference to a path symbol that FILE-NAME begins with"
+    c['pathpfx-odd'] = lambda x: setup(_def('path', 'Z', {'rel': None, 'name': S(R(x), '.bak')}), _show('Z'))
+    c['pathpfx-odd-dir'] = lambda x: setup(_def('path', 'Z', {'rel': None, 'name': S(R(x), '-x/y')}), _show('Z'))
     c['pathcomp'] = lambda x: setup(_def('path', 'Z', {'rel': 'tmp', 'name': S('n/', R(x))}), _show('Z'))
     c['pathcomp-relsym'] = lambda x: setup(_def('path', 'Z', {'rel': R('EXACTLY_ACT'), 'name': S(R(x))}), _show('Z'))
     c['pathcomp-default'] = lambda x: setup(_def('path', 'Z', {'rel': None, 'name': S('n', R(x))}), _show('Z'))
@@ -375,7 +379,7 @@ CONTEXTS = _ctx_table()
 HOME_PATH_CONTEXTS = ['contents-of-rel', 'contents-of-pfx', 'contents-of-in-ts-def']
 CHAINS = ['0', 's1', 's2', 't1', 't2', 'm1', 'm2']  # m: strings with two references, the second one leads to X0
 DEEP_CHAINS = ['s3', 't3', 'm3', 't4']  # thorough: every context; quick: the contexts of DEEP_QUICK_CONTEXTS
-DEEP_QUICK_CONTEXTS = ['contents-of-rel', 'contents-of-comp', 'env-name', 'file-dst-rel', 'file-dst-pfx', 'dir-dst-comp', 'exists-path-pfx', 'pathpfx', 'pathcomp', 'pathcomp-relsym', 'int-def', 'int-used', 'timeout-int', 'fname-fs',
+DEEP_QUICK_CONTEXTS = ['contents-of-rel', 'contents-of-comp', 'env-name', 'file-dst-rel', 'file-dst-pfx', 'dir-dst-comp', 'exists-path-pfx', 'pathpfx', 'pathpfx-odd', 'pathcomp', 'pathcomp-relsym', 'int-def', 'int-used', 'timeout-int', 'fname-fs',
                        'fname-fc', 'rel', 'str-soft', 'list-elem', 'arg-elem', 'act-arg', 'file-ts-whole',
                        'run-prog', 'def-text-matcher-plain', 'file-tt-plain', 'dir-use-plain', 'replace-regex-used']
 
